@@ -202,6 +202,10 @@ where
         self.link_ops(&ops)?;
         let mut vm = VM::with_pointer(self.strict, ops, &self.working_dir);
         if let Some(path) = path {
+            // The file we build is on the import stack from the start so that
+            // an import chain that leads back to it is reported as a cycle.
+            let key: Rc<str> = path.to_string_lossy().into();
+            vm = vm.with_import_stack(vec![key]);
             vm.set_path(path);
         }
         if self.validate_mode {
